@@ -245,3 +245,7 @@ def check(run, M, tier):
     # U5 the interpolation kernel nufft relies on (anchor: Kaiser-Bessel kernel via the polynomial I0 approximation)
     from .c07 import check_kernel_functions
     check_kernel_functions(run, M, "U5", names=("_kaiser_bessel_kernel",))
+    # ... and the interpolation / gridding loops themselves (anchor sigpy/interp.py: window, weights, periodic wrap): nufft's accuracy and exact
+    # adjointness are those of interpolate / gridding, so C07's kernel rules (I1-I7) are part of this property's check
+    from . import c07
+    c07.check(run, M, tier, rule_prefix="U7")
